@@ -365,7 +365,8 @@ impl VariablesState {
                 _ => false,
             },
             ValueType::Float(val) => match default_val.value {
-                ValueType::Float(default_val) => *val == default_val,
+                // (bitwise: -0.0 is not the default 0.0 and must be written)
+                ValueType::Float(default_val) => val.to_bits() == default_val.to_bits(),
                 _ => false,
             },
             ValueType::List(val) => match &default_val.value {
